@@ -101,7 +101,7 @@ impl Cursor {
                 self.post_seen.insert((*slot, *follower));
             }
             What::FEnd => self.closed = self.opened,
-            What::Gecko { last } => self.splitting = !*last,
+            What::Gecko { last } | What::SplitUnknown { last, .. } => self.splitting = !*last,
             What::End { .. } => self.end_seen = true,
             _ => {}
         }
@@ -459,6 +459,7 @@ fn run_inner<'a>(
         if flags.protocol {
             let exp_code = match &e.what {
                 What::Gecko { last: true } => L::CODE_GECKO,
+                What::SplitUnknown { last: true, code } => *code,
                 _ => e.code,
             };
             if code != exp_code {
